@@ -197,6 +197,7 @@ func runBounded(prop, tier string) []boundedResult {
 }
 
 type checkResult struct {
+	unreachable []string
 	bounded   []boundedResult
 	records []oblRecord
 	reports []*FuncReport
@@ -421,7 +422,9 @@ func runCheck(P *Program, DB *ContractDB, prop, tier string, only string) *check
 			rec := oblRecord{Name: o.Name, Kind: o.Kind, Func: o.Func, Clause: o.Clause, Pos: o.Pos, Verdict: r.Verdict, Solver: r.Solver, TimeS: r.TimeS, Raw: r.Raw, Confirm: r.Confirm, Claimed: o.Claimed}
 			switch {
 			case o.MustFail:
-				if r.Verdict == "unsat" {
+				if r.Verdict == "unsat" && o.Soft {
+					rec.Status = "unreachable-return"
+				} else if r.Verdict == "unsat" {
 					rec.Status = "vacuous"
 				} else {
 					rec.Status = "vacuity-ok"
@@ -472,7 +475,89 @@ func cmdCheck(args []string) int {
 	if *only == "" {
 		res.bounded = runBounded(*prop, *tier)
 	}
-	return report(P, DB, res, *prop, *tier, *only == "", *verbose, time.Since(t0).Seconds())
+	rc := report(P, DB, res, *prop, *tier, *only == "", *verbose, time.Since(t0).Seconds())
+	if *tier == "thorough" && *only == "" && rc == 0 {
+		// must-fail corpus: every deliberate property-breaking edit has to be refuted,
+		// every harmless edit accepted; otherwise the check itself is broken (exit 2)
+		run, bad, lines := runCanaryCorpus(*prop, "quick", 6)
+		for _, l := range lines {
+			fmt.Println(l)
+		}
+		fmt.Printf("canaries: %d run, %d not detected/false alarm\n", run, bad)
+		appendCanaryEvidence(*prop, run, bad, lines)
+		if bad > 0 {
+			fmt.Printf("BROKEN-CHECK: %d canaries of %s were not handled as expected\n", bad, *prop)
+			return 2
+		}
+	}
+	return rc
+}
+
+// appendCanaryEvidence records the must-fail corpus run in the evidence file.
+func appendCanaryEvidence(prop string, run, bad int, lines []string) {
+	path := filepath.Join(VerifDir, "evidence", prop+".json")
+	b, err := os.ReadFile(path)
+	if err != nil {
+		return
+	}
+	var ev map[string]any
+	if json.Unmarshal(b, &ev) != nil {
+		return
+	}
+	cov, _ := ev["coverage"].(map[string]any)
+	if cov == nil {
+		return
+	}
+	cov["canaries_run"] = run
+	cov["canaries_unexpected"] = bad
+	cov["canary_results"] = lines
+	out, _ := json.MarshalIndent(ev, "", " ")
+	os.WriteFile(path, out, 0o644)
+}
+
+func runCanaryCorpus(prop, tier string, par int) (run, bad int, lines []string) {
+	cs := loadCanaries(prop)
+	type out struct {
+		c   Canary
+		txt string
+		rc  int
+	}
+	results := make([]out, len(cs))
+	var wg sync.WaitGroup
+	sem := make(chan struct{}, par)
+	for i, c := range cs {
+		wg.Add(1)
+		go func(i int, c Canary) {
+			defer wg.Done()
+			sem <- struct{}{}
+			defer func() { <-sem }()
+			cmd := exec.Command(os.Args[0], "canary", "-property", c.Property, "-id", c.ID, "-tier", tier)
+			cmd.Env = os.Environ()
+			b, err := cmd.CombinedOutput()
+			rc := 0
+			if err != nil {
+				rc = 3
+			}
+			results[i] = out{c, string(b), rc}
+		}(i, c)
+	}
+	wg.Wait()
+	for _, r := range results {
+		line := ""
+		for _, l := range strings.Split(r.txt, "\n") {
+			if strings.HasPrefix(l, "CANARY ") {
+				line = l
+			}
+		}
+		if line == "" {
+			line = "CANARY " + r.c.ID + " " + r.c.Property + " error :: " + firstLines(r.txt, 3)
+			bad++
+		} else if r.rc != 0 {
+			bad++
+		}
+		lines = append(lines, line)
+	}
+	return len(results), bad, lines
 }
 
 func report(P *Program, DB *ContractDB, res *checkResult, prop, tier string, writeEvidence, verbose bool, wall float64) int {
@@ -492,6 +577,7 @@ func report(P *Program, DB *ContractDB, res *checkResult, prop, tier string, wri
 	var samples []any
 	replayDir := filepath.Join(VerifDir, "replays")
 	broken := false
+	var unreachable []string
 	for i := range res.records {
 		r := &res.records[i]
 		solverTime += r.TimeS
@@ -501,6 +587,10 @@ func report(P *Program, DB *ContractDB, res *checkResult, prop, tier string, wri
 		switch r.Status {
 		case "vacuity-ok":
 			nVac++
+		case "unreachable-return":
+			fmt.Printf("VACUITY-WARN: %s is refutable: that return is dead under the assumed contracts\n", r.Name)
+			unreachable = append(unreachable, r.Name)
+			res.unreachable = unreachable
 		case "vacuous":
 			// a failed obligation is assumed afterwards, which can make later points
 			// unreachable: only a function without failed obligations is vacuous
@@ -664,6 +754,7 @@ func writeEvidenceFile(P *Program, DB *ContractDB, res *checkResult, prop, tier 
 			"known_findings":           nKnown,
 			"undecided_unclaimed":      nUndecided,
 			"vacuity_probes_ok":        nVac,
+			"unreachable_returns":      res.unreachable,
 			"checker_cmd":              fmt.Sprintf("/verif/bin/govc check -property %s -tier %s", prop, tier),
 			"trusted_base":             []string{"go/packages + go/ssa (x/tools v0.29.0) SSA construction", "govc VC generator (this repository, /verif/engine)", "z3 5.1.0 (z3-new), z3 4.8.12, cvc5 1.0.3", "axioms and ext/iface contracts in /verif/specs and contracts_verif.go (listed under assumptions)"},
 			"functions_under_contract": res.funcs,
@@ -931,48 +1022,12 @@ func cmdCanary(args []string) int {
 		fmt.Fprintln(os.Stderr, "no such canary")
 		return 2
 	}
-	type out struct {
-		c   Canary
-		txt string
-		rc  int
+	_ = cs
+	run, bad, lines := runCanaryCorpus(*prop, *tier, *par)
+	for _, l := range lines {
+		fmt.Println(l)
 	}
-	results := make([]out, len(cs))
-	var wg sync.WaitGroup
-	sem := make(chan struct{}, *par)
-	for i, c := range cs {
-		wg.Add(1)
-		go func(i int, c Canary) {
-			defer wg.Done()
-			sem <- struct{}{}
-			defer func() { <-sem }()
-			cmd := exec.Command(os.Args[0], "canary", "-property", c.Property, "-id", c.ID, "-tier", *tier)
-			cmd.Env = os.Environ()
-			b, err := cmd.CombinedOutput()
-			rc := 0
-			if err != nil {
-				rc = 3
-			}
-			results[i] = out{c, string(b), rc}
-		}(i, c)
-	}
-	wg.Wait()
-	bad := 0
-	for _, r := range results {
-		line := ""
-		for _, l := range strings.Split(r.txt, "\n") {
-			if strings.HasPrefix(l, "CANARY ") {
-				line = l
-			}
-		}
-		if line == "" {
-			line = "CANARY " + r.c.ID + " " + r.c.Property + " error :: " + firstLines(r.txt, 3)
-			bad++
-		} else if r.rc != 0 {
-			bad++
-		}
-		fmt.Println(line)
-	}
-	fmt.Printf("canaries: %d run, %d not detected/false alarm\n", len(results), bad)
+	fmt.Printf("canaries: %d run, %d not detected/false alarm\n", run, bad)
 	if bad > 0 {
 		return 2
 	}
